@@ -282,6 +282,7 @@ class Extractor:
         self.inline = dict(extra_inline or {})
         self.emissions = []
         self.qcount = 0
+        self.closures = {}
         self.mutated = set()
         self._prepare(group_names or {})
 
@@ -409,6 +410,8 @@ class Extractor:
             return "%s %s= %s" % (self._n(s.target, local), {ast.Add: "+", ast.Sub: "-", ast.Mult: "*"}.get(type(s.op), "?"), self._n(s.value, local))
         if isinstance(s, ast.Expr):
             return self._n(s.value, local)
+        if isinstance(s, ast.Delete):
+            return "del " + ", ".join(self._n(t, local) for t in s.targets)
         return " ".join(src(s).split())
 
     def _definition(self, name):
@@ -416,17 +419,29 @@ class Extractor:
         if name in self._defs:
             return self._defs[name]
         self._defs[name] = name          # recursion guard
-        parts = [self._render_stmt(s, {name: "_it"}) for s in self.fnode.body if self._writes(s, name) and not isinstance(s, ast.Return)
+        parts = [self._render_stmt(s, dict(getattr(self, "base_local", {}), **{name: "_it"})) for s in self.fnode.body if self._writes(s, name) and not isinstance(s, ast.Return)
                  and not (isinstance(s, ast.Expr) and isinstance(s.value, (ast.Yield, ast.YieldFrom)))]
-        self._defs[name] = "{" + "; ".join(parts) + "}" if parts else name
+        if not parts and getattr(self, "outer", None) is not None:
+            self._defs[name] = self.outer._definition(name)
+        else:
+            self._defs[name] = "{" + "; ".join(parts) + "}" if parts else name
         return self._defs[name]
 
     def _expand(self, text):
         """replace the locals that are built up by several statements (not inlinable) by the text of their definition"""
-        for name in self.opaque:
+        for name in sorted(self.opaque):
             if re.search(r"(?<![\w.])%s\b" % re.escape(name), text):
                 d = self._definition(name)
                 text = re.sub(r"(?<![\w.])%s\b" % re.escape(name), lambda m: d, text)
+        # other built-up locals mentioned inside a definition: placeholders in order of appearance (their names do not matter)
+        rest = [n for n in self.opaque if re.search(r"(?<![\w.])%s\b" % re.escape(n), text)]
+        if rest:
+            order = []
+            for m in re.finditer(r"(?<![\w.])(%s)\b" % "|".join(re.escape(n) for n in rest), text):
+                if m.group(1) not in order:
+                    order.append(m.group(1))
+            ren = {n: "_v%d" % i for i, n in enumerate(order)}
+            text = re.sub(r"(?<![\w.])(%s)\b" % "|".join(re.escape(n) for n in rest), lambda m: ren[m.group(1)], text)
         return text
 
     def run(self, stmts=None):
@@ -633,9 +648,75 @@ class Extractor:
         X = self._expand
         self.emissions.append(Emission([(t, X(d)) for t, d in quants], [X(g) for g in guards], builder, [X(a) for a in args], node))
 
-    def _calls(self, s, quants, guards, local):
-        if isinstance(s, (ast.FunctionDef, ast.ClassDef)):
+    def _closure(self, s, quants, guards, local):
+        """a nested function that adds constraints: its body is extracted with its parameters as free names p0, p1, .. and the builder
+        names prefixed by the closure's canonical name k<i>; calls of the closure in the enclosing function are emissions `call k<i>`"""
+        has = any(isinstance(c, ast.Call) and isinstance(c.func, ast.Attribute) and c.func.attr in EMITTERS and src(c.func.value) in self.formula_names
+                  for c in ast.walk(s))
+        if not has:
             return
+        name = "k%d" % len(self.closures)
+        self.closures[s.name] = name
+        loc = dict(local)
+        for i, a in enumerate(s.args.posonlyargs + s.args.args):
+            loc[a.arg] = "p%d" % i
+        before = len(self.emissions)
+        saved_inline, saved_mut, saved_counts = self.inline, self.mutated, self.counts
+        # locals of the closure: single assignments inlined, mutated ones summarised, as in the enclosing function
+        sub = Extractor.__new__(Extractor)
+        sub.__dict__.update(self.__dict__)
+        sub.fnode = s
+        sub.inline = dict(self.inline)
+        sub.mutated = set()
+        sub.emissions = []
+        sub.closures = {}
+        counts, assigns = {}, {}
+        for st in stmts_in(s):
+            if isinstance(st, ast.Assign) and len(st.targets) == 1 and isinstance(st.targets[0], ast.Name):
+                counts[st.targets[0].id] = counts.get(st.targets[0].id, 0) + 1
+                assigns[st.targets[0].id] = st.value
+            for c in ast.walk(st):
+                if isinstance(c, ast.Call) and isinstance(c.func, ast.Attribute) and c.func.attr in self.MUTATORS and isinstance(c.func.value, ast.Name):
+                    sub.mutated.add(c.func.value.id)
+                    counts[c.func.value.id] = counts.get(c.func.value.id, 0) + 2
+                if isinstance(c, ast.Delete):
+                    for t in c.targets:
+                        b = t
+                        while isinstance(b, ast.Subscript):
+                            b = b.value
+                        if isinstance(b, ast.Name):
+                            sub.mutated.add(b.id)
+                            counts[b.id] = counts.get(b.id, 0) + 2
+            if isinstance(st, ast.For):
+                for x in ast.walk(st.target):
+                    if isinstance(x, ast.Name):
+                        counts[x.id] = counts.get(x.id, 0) + 2
+        params = {a.arg for a in s.args.posonlyargs + s.args.args}
+        for nme, v in assigns.items():
+            if counts.get(nme) == 1 and nme not in params and nme not in sub.mutated:
+                sub.inline[nme] = v
+        sub.counts = counts
+        sub._defs = {}
+        sub.opaque = {nme for nme in counts if (counts[nme] > 1 or nme in sub.mutated) and nme not in params
+                      and not any(isinstance(st, ast.For) and nme in [x.id for x in ast.walk(st.target) if isinstance(x, ast.Name)] for st in stmts_in(s))}
+        sub.opaque |= set(getattr(self, "opaque", set())) - params - set(counts)
+        sub.outer = self
+        sub.fi = type("FI", (), {"params": list(params), "node": s})()
+        sub._built = {}
+        sub.base_local = dict(loc)
+        sub._block(s.body, [], [], loc)
+        for e in sub.emissions:
+            e.builder = "%s: %s" % (name, e.builder)
+            self.emissions.append(e)
+
+    def _calls(self, s, quants, guards, local):
+        if isinstance(s, ast.FunctionDef):
+            self._closure(s, quants, guards, local)
+            return
+        if isinstance(s, ast.ClassDef):
+            return
+        for c in [n for n in ast.walk(s) if isinstance(n, ast.Call) and isinstance(n.func, ast.Name) and n.func.id in self.closures]:
+            self._emit(list(quants), list(guards), "call %s" % self.closures[c.func.id], [self._n(a, local) for a in c.args], c)
         if self.helper:
             v = None
             if isinstance(s, ast.Expr) and isinstance(s.value, (ast.Yield, ast.YieldFrom)) and s.value.value is not None:
